@@ -40,6 +40,7 @@ type RaftOpts struct {
 	// (start-up Restore happens inside NewConsensus).
 	BeforeConsensus func(id peer.ID, store ds.Datastore)
 	TweakRaft       func(cfg *raft.Config)
+	PutDelay        time.Duration // > 0: every Put of the pinset store takes that long (slow state arrival)
 	TweakCluster    func(cfg *ipfscluster.Config)
 	// NoCluster builds only host + raft.Consensus (C01 seam 3 child); the
 	// consensus RPC client then points at a host-less server with the fake tracker.
@@ -96,6 +97,17 @@ func (s *SwitchableConsensus) LogUnpin(ctx context.Context, p *api.Pin) error {
 	return s.Consensus.LogUnpin(ctx, p)
 }
 
+// slowStore delays every Put (a joiner whose state arrives slowly).
+type slowStore struct {
+	ds.Datastore
+	delay time.Duration
+}
+
+func (s *slowStore) Put(k ds.Key, v []byte) error {
+	time.Sleep(s.delay)
+	return s.Datastore.Put(k, v)
+}
+
 // NewKey creates an identity.
 func NewKey() (crypto.PrivKey, peer.ID, error) {
 	priv, pub, err := crypto.GenerateKeyPair(crypto.Ed25519, 0)
@@ -142,6 +154,9 @@ func NewRaftPeer(o RaftOpts) (*RaftPeer, error) {
 		return nil, err
 	}
 	r := &RaftPeer{Host: h, DHT: d, ID: h.ID(), Dir: o.Dir, Store: inmem.New()}
+	if o.PutDelay > 0 {
+		r.Store = &slowStore{Datastore: r.Store, delay: o.PutDelay}
+	}
 	fail := func(err error) (*RaftPeer, error) {
 		if r.Cons != nil {
 			sctx, cancel := context.WithTimeout(ctx, 20*time.Second)
